@@ -328,7 +328,7 @@ fn sync_skinned_mesh(
         (
             With<SyncEntity>,
             Without<SyncExclude<SkinnedMesh>>,
-            Changed<SkinnedMesh>,
+            Or<(Changed<SkinnedMesh>, Added<SyncEntity>)>,
         ),
     >,
 ) {
@@ -341,7 +341,14 @@ fn sync_skinned_mesh(
 #[allow(clippy::type_complexity)]
 fn sync_detect<T: Component + Reflect>(
     mut push: ResMut<SyncTrackerRes>,
-    q: Query<(&SyncEntity, &T), (With<SyncEntity>, Without<SyncExclude<T>>, Changed<T>)>,
+    q: Query<
+        (&SyncEntity, &T),
+        (
+            With<SyncEntity>,
+            Without<SyncExclude<T>>,
+            Or<(Changed<T>, Added<SyncEntity>)>,
+        ),
+    >,
 ) {
     for (sup, component) in q.iter() {
         push.signal_component_changed(sup.uuid, component.clone_value());
